@@ -973,4 +973,129 @@ example : (match periodicArray Rat.floor C14.roundHalfEven (1 / 1000) exU exO
 
 end examples
 
+/-! ## disregistry (atomman.defect.disregistry) -/
+
+/-- **disregistry_planes_adjoin**: the two atomic planes whose displacements `disregistry` subtracts are the ones
+    adjoining the slip plane through `planepos`: both are heights of atoms, the slip plane lies strictly between them
+    and an atom strictly between them can only lie exactly on the slip plane (excluded by the documented precondition
+    that `planepos` falls between two planes of atoms). -/
+theorem disregistry_planes_adjoin (atol rtol : K) (m n pp : V3 K) (basepos disp : List (V3 K))
+    (hl : basepos.length = disp.length) (r : Disreg K) (h : disregistry atol rtol m n pp basepos disp = .ok r) :
+    r.below < V3.dot pp n ∧ V3.dot pp n < r.above ∧
+    (∃ p ∈ basepos, V3.dot p n = r.above) ∧ (∃ p ∈ basepos, V3.dot p n = r.below) ∧
+    ∀ p ∈ basepos, r.below < V3.dot p n → V3.dot p n < r.above → V3.dot p n = V3.dot pp n := by
+  unfold disregistry at h
+  simp only [disreg_rows_y m n basepos disp hl] at h
+  cases ha : minAbove (V3.dot pp n) (basepos.map fun p => V3.dot p n) with
+  | none => rw [ha] at h; simp at h
+  | some a =>
+    cases hb : maxBelow (V3.dot pp n) (basepos.map fun p => V3.dot p n) with
+    | none => rw [ha, hb] at h; simp at h
+    | some b =>
+      rw [ha, hb] at h
+      simp only at h
+      split_ifs at h with hc
+      simp only [Except.ok.injEq] at h
+      subst h
+      obtain ⟨a1, a2, a3⟩ := minAbove_spec _ _ a ha
+      obtain ⟨b1, b2, b3⟩ := maxBelow_spec _ _ b hb
+      simp only [List.mem_map] at a1 b1
+      refine ⟨b2, a2, ?_, ?_, ?_⟩
+      · obtain ⟨p, hp, e⟩ := a1; exact ⟨p, hp, e⟩
+      · obtain ⟨p, hp, e⟩ := b1; exact ⟨p, hp, e⟩
+      · intro p hp h1 h2
+        have hm : V3.dot p n ∈ basepos.map fun p => V3.dot p n := List.mem_map.mpr ⟨p, hp, rfl⟩
+        rcases lt_trichotomy (V3.dot pp n) (V3.dot p n) with hlt | heq | hgt
+        · exact absurd (a3 _ hm hlt) (not_le.mpr h2)
+        · exact heq.symm
+        · exact absurd (b3 _ hm hgt) (not_le.mpr h1)
+
+/-- **disregistry_same_gap**: the result depends on `planepos` only through the gap between atomic planes it selects:
+    any other point whose height lies in the same (empty) gap gives the same profile.  In particular in-plane offsets
+    of `planepos` (along `m` or the line) never matter. -/
+theorem disregistry_same_gap (atol rtol : K) (m n pp pp' : V3 K) (basepos disp : List (V3 K))
+    (hl : basepos.length = disp.length) (r : Disreg K) (h : disregistry atol rtol m n pp basepos disp = .ok r)
+    (hgap : ∀ p ∈ basepos, ¬ (r.below < V3.dot p n ∧ V3.dot p n < r.above))
+    (h1 : r.below < V3.dot pp' n) (h2 : V3.dot pp' n < r.above) :
+    disregistry atol rtol m n pp' basepos disp = .ok r := by
+  unfold disregistry at h ⊢
+  simp only [disreg_rows_y m n basepos disp hl] at h ⊢
+  cases ha : minAbove (V3.dot pp n) (basepos.map fun p => V3.dot p n) with
+  | none => rw [ha] at h; simp at h
+  | some a =>
+    cases hb : maxBelow (V3.dot pp n) (basepos.map fun p => V3.dot p n) with
+    | none => rw [ha, hb] at h; simp at h
+    | some b =>
+      rw [ha, hb] at h
+      simp only at h
+      have hab : r.above = a ∧ r.below = b := by
+        split_ifs at h with hc
+        simp only [Except.ok.injEq] at h
+        subst h
+        exact ⟨rfl, rfl⟩
+      obtain ⟨a1, a2, a3⟩ := minAbove_spec _ _ a ha
+      obtain ⟨b1, b2, b3⟩ := maxBelow_spec _ _ b hb
+      rw [hab.1] at h2 hgap
+      rw [hab.2] at h1 hgap
+      have ha' : minAbove (V3.dot pp' n) (basepos.map fun p => V3.dot p n) = some a := by
+        apply minAbove_eq_of_spec _ _ _ a1 h2
+        intro y hy hmy
+        obtain ⟨p, hp, rfl⟩ := List.mem_map.mp hy
+        by_contra hlt
+        exact hgap p hp ⟨lt_trans h1 hmy, not_le.mp hlt⟩
+      have hb' : maxBelow (V3.dot pp' n) (basepos.map fun p => V3.dot p n) = some b := by
+        apply maxBelow_eq_of_spec _ _ _ b1 h1
+        intro y hy hmy
+        obtain ⟨p, hp, rfl⟩ := List.mem_map.mp hy
+        by_contra hlt
+        exact hgap p hp ⟨not_le.mp hlt, lt_trans hmy h2⟩
+      rw [ha', hb']
+      exact h
+
+/-- **disregistry_common_column**: the returned coordinates are strictly increasing; a coordinate is returned iff it
+    is an atomic column of one of the two adjoining planes; and at a column present in both planes the value is the
+    mean displacement of that column's atoms in the upper plane minus that in the lower plane (no interpolation). -/
+theorem disregistry_common_column (atol rtol : K) (m n pp : V3 K) (basepos disp : List (V3 K)) (r : Disreg K)
+    (h : disregistry atol rtol m n pp basepos disp = .ok r) :
+    let pa := planeRows atol rtol r.above (drows m n basepos disp)
+    let pb := planeRows atol rtol r.below (drows m n basepos disp)
+    r.coord.Pairwise (· < ·) ∧ r.vals.length = r.coord.length ∧
+    (∀ x, x ∈ r.coord ↔ (∃ q ∈ pa, q.x = x) ∨ (∃ q ∈ pb, q.x = x)) ∧
+    ∀ (k : Nat) (x : K), r.coord[k]? = some x → (∃ q ∈ pa, q.x = x) → (∃ q ∈ pb, q.x = x) →
+      r.vals[k]? = some (meanV ((pa.filter fun q => isclose atol rtol q.x x).map (·.d))
+                          - meanV ((pb.filter fun q => isclose atol rtol q.x x).map (·.d))) := by
+  unfold disregistry at h
+  dsimp only at h
+  cases ha : minAbove (V3.dot pp n) ((List.zipWith (fun p d => (⟨V3.dot p m, V3.dot p n, d⟩ : DRow K)) basepos disp).map (·.y)) with
+  | none => rw [ha] at h; simp at h
+  | some a =>
+    cases hb : maxBelow (V3.dot pp n) ((List.zipWith (fun p d => (⟨V3.dot p m, V3.dot p n, d⟩ : DRow K)) basepos disp).map (·.y)) with
+    | none => rw [ha, hb] at h; simp at h
+    | some b =>
+      rw [ha, hb] at h
+      simp only at h
+      split_ifs at h with hc
+      simp only [Except.ok.injEq] at h
+      subst h
+      simp only [drows]
+      refine ⟨sortedUnique_sorted _, by simp, ?_, ?_⟩
+      · intro x
+        simp only [mem_sortedUnique, List.mem_append, List.mem_map]
+      · intro k x hk hxa hxb
+        simp only [List.getElem?_map, hk, Option.map_some]
+        have hua : x ∈ sortedUnique ((planeRows atol rtol a (List.zipWith (fun p d => (⟨V3.dot p m, V3.dot p n, d⟩ : DRow K)) basepos disp)).map (·.x)) := by
+          rw [mem_sortedUnique]; exact List.mem_map.mpr hxa
+        have hub : x ∈ sortedUnique ((planeRows atol rtol b (List.zipWith (fun p d => (⟨V3.dot p m, V3.dot p n, d⟩ : DRow K)) basepos disp)).map (·.x)) := by
+          rw [mem_sortedUnique]; exact List.mem_map.mpr hxb
+        obtain ⟨i, hi⟩ := List.getElem?_of_mem hua
+        obtain ⟨j, hj⟩ := List.getElem?_of_mem hub
+        rw [interp_node _ _ i x _ (sortedUnique_sorted _) (by simp [columnMeans]) hi (columnMeans_getElem? atol rtol _ _ i x hi),
+          interp_node _ _ j x _ (sortedUnique_sorted _) (by simp [columnMeans]) hj (columnMeans_getElem? atol rtol _ _ j x hj)]
+
+/-- non-vacuity: two atoms above, two below the plane `y = 0`, one farther away (ℚ). -/
+example : ((disregistry (1/100000000 : ℚ) (1/100000) ⟨1,0,0⟩ ⟨0,1,0⟩ ⟨0,0,0⟩
+    [⟨0,1,0⟩, ⟨1,1,0⟩, ⟨0,-1,0⟩, ⟨1,-1,0⟩, ⟨0,3,0⟩] [⟨1,0,0⟩, ⟨0,0,0⟩, ⟨0,0,0⟩, ⟨0,0,0⟩, ⟨5,5,5⟩]).toOption.map
+      (fun r => (r.above, r.below, r.coord, r.vals.map (·.x)))) = some (1, -1, [0, 1], [1, 0]) := by
+  decide +kernel
+
 end Atomman.C13
